@@ -1512,6 +1512,657 @@ def empty_pg_after_members(groups, pos):
     return True
 
 
+# ------------------------------------------------------------------ analysis signature (C13, C14, C17)
+def obj_keys(d):
+    """ref -> object-identity-free key (taxon + genes below)"""
+    keys = {}
+    for h in d.top_sx + d.single_sx:
+        for x in sx_nodes(h):
+            r = ('g', str(x[1])) if x[0] == 'G' else ('h', int(x[1]))
+            keys[r] = r if x[0] == 'G' else ('h', core.node_key(x))
+    return keys
+
+
+def signature(ham, with_profile=True, max_pairs=60, rng=None):
+    """everything a comparison-style user can observe, in an id-free, order-free form"""
+    d = impl.Dump(ham)
+    keys = obj_keys(d)
+    K = lambda x: keys.get(d.ref(x), ('unknown', repr(x)))
+    sig = {'forest': sorted(impl.canon_hog(h) for h in d.top_sx),
+           'singles': sorted(str(x[1]) for x in d.single_sx),
+           'anomalies': list(d.anomalies)}
+    gs = d.genome_at
+    ps = sorted(gs.keys(), key=lambda p: (len(p), p))
+    pairs = [(a, b) for a in ps for b in ps if is_anc(a, b) and gs[a].genes and gs[b].genes]
+    if len(pairs) > max_pairs:
+        pairs = (rng or __import__('random').Random(0)).sample(pairs, max_pairs)
+    comp = []
+    for a, b in pairs:
+        m = ham.compare_genomes_vertically(gs[a], gs[b]).map
+        comp.append((a, b, sorted(K(x) for x in m.GAIN), sorted((K(k), K(v)) for k, v in m.RETAINED.items()),
+                     sorted((K(k), tuple(sorted(K(v) for v in vs))) for k, vs in m.DUPLICATE.items()),
+                     sorted(K(x) for x in m.LOSS), m.number_duplication))
+    sig['comparisons'] = comp
+    sig['genomes'] = sorted((p, sorted(K(x) for x in g.genes)) for p, g in gs.items() if g.genes)
+    if with_profile:
+        try:
+            tab = treemap_table(ham.create_tree_profile().treemap)
+            sig['profile'] = sorted((p, nbr, tuple(sorted(f.items(), key=str))) for p, (nbr, f, _) in tab.items())
+        except Exception as e:  # noqa
+            sig['profile'] = 'error:' + type(e).__name__
+        fams = []
+        for hid, h in ham.top_level_hogs.items():
+            try:
+                tm = ham.create_tree_profile(hog=h).treemap
+                root = d.path[h.genome.taxon]
+                fams.append((K(h), sorted((impl.node_path(n) + root, n.nbr_genes, n.dupl, n.lost, n.retained, n.duplication)
+                                          for n in tm.traverse())))
+            except Exception as e:  # noqa
+                fams.append((K(h), 'error:' + type(e).__name__))
+        sig['family_profiles'] = sorted(fams, key=repr)
+    return sig
+
+
+def sig_diff(a, b):
+    return [k for k in sorted(set(a) | set(b)) if a.get(k) != b.get(k)]
+
+
+# ------------------------------------------------------------------ filter (C11)
+def make_filter(hogs, ext, ints):
+    f = pyham.ParserFilter()
+    if hogs:
+        f.add_hogs_via_hogId(hogs)
+    if ext:
+        f.add_hogs_via_GeneExtId(ext)
+    if ints:
+        f.add_hogs_via_GeneIntId(ints)
+    return f
+
+
+def check_C11(ctx):
+    cases = [c for c in gen_main(ctx, ctx.scale(120, 1200), p_og_attr=0.0) if c.consistent and all(g[1] is not None for g in c.groups)]
+    full = core.load_cases(cases)
+    reqs, metas = [], []
+    for L in full:
+        ctx.record_case(L.case)
+        if L.impl[0] != 'ok':
+            continue
+        c = L.case
+        fam_ids = [g[1] for g in c.groups]
+        fam_genes = {g[1]: group_refs(g) for g in c.groups}
+        allgenes = [g for _, gs in c.species for g in gs]
+        filters = [([], [], []), (['no-such-hog'], ['no-such-x'], ['no-such-gene'])]
+        for _ in range(ctx.scale(5, 16)):
+            hs = ctx.rng.sample(fam_ids, ctx.rng.randint(0, min(2, len(fam_ids)))) if ctx.rng.random() < 0.6 else []
+            gi = [g['id'] for g in ctx.rng.sample(allgenes, min(len(allgenes), ctx.rng.randint(0, 2)))] if ctx.rng.random() < 0.5 else []
+            ge = []
+            if ctx.rng.random() < 0.5 and allgenes:
+                for g in ctx.rng.sample(allgenes, min(len(allgenes), 2)):
+                    xs = [v for k, v in g.items() if k != 'id']
+                    if xs:
+                        ge.append(ctx.rng.choice(xs))
+            if ctx.rng.random() < 0.2:
+                hs = hs + ['ghost']
+            filters.append((hs, ge, gi))
+        for hs, ge, gi in filters:
+            reqs.append(['loadf', c.use_internal, c.tree.sx(), c.doc_sx(),
+                         ['filter', [Q(x) for x in hs], [Q(x) for x in ge], [Q(x) for x in gi]]])
+            metas.append((L, hs, ge, gi, fam_ids, fam_genes, allgenes))
+    reps = model.run_requests(reqs, chunk=200)
+    for (L, hs, ge, gi, fam_ids, fam_genes, allgenes), rep in zip(metas, reps):
+        c = L.case
+        ctx.counts['filtered_loads'] += 1
+        ctx.dist['selectors=%s%s%s' % ('H' if hs else '-', 'E' if ge else '-', 'I' if gi else '-')] += 1
+        r = impl.load_impl(c, filter_object=make_filter(hs, ge, gi))
+        payload = {'case': case_json(c), 'filter': {'hogs': hs, 'ext': ge, 'int': gi}}
+        if r[0] != 'ok':
+            ctx.violation('filtered load fails: %s' % r[1], payload)
+            continue
+        FL = core.Loaded(c, r, rep)
+        # expected selection
+        named_genes = set(gi)
+        for g in allgenes:
+            if any(v in ge for v in g.values()):
+                named_genes.add(g['id'])
+        sel = [f for f in fam_ids if f in hs or any(x in named_genes for x in fam_genes[f])]
+        want_genes = set(x for f in sel for x in fam_genes[f]) | set(g for g in named_genes if g in [a['id'] for a in allgenes])
+        bad = []
+        ham = r[1]
+        if sorted(ham.top_level_hogs.keys()) != sorted(sel):
+            bad.append('families loaded %s, expected %s' % (sorted(ham.top_level_hogs.keys()), sorted(sel)))
+        if set(ham.extant_gene_map.keys()) != want_genes:
+            bad.append('genes loaded differ from the genes of the selected families plus named singletons')
+        fd, ud = FL.dump, L.dump
+        ufam = {k: impl.canon_hog(h, True) for (k, _), h in zip(ud.tops, ud.top_sx)}
+        for (k, _), h in zip(fd.tops, fd.top_sx):
+            if impl.canon_hog(h, True) != ufam.get(k):
+                bad.append('family %s differs from the same family in the unfiltered load' % k)
+        for f in fam_ids:
+            if f not in sel and not expect_keyerror(ham.get_hog_by_id, f):
+                bad.append('unselected family %s can be looked up' % f)
+        for g in allgenes:
+            if g['id'] not in want_genes and not expect_keyerror(ham.get_gene_by_id, g['id']):
+                bad.append('gene %s of an unselected family can be looked up' % g['id'])
+        for p, (kind, name, refs) in fd.genome_table().items():
+            for rf in refs:
+                if rf[0] == 'g' and rf[1] not in want_genes:
+                    bad.append('genome %s lists a gene of an unselected family' % name)
+        bad.extend(fd.anomalies[:3])
+        if bad:
+            ctx.violation(bad[0], dict(payload, failures=bad[:10]))
+            continue
+        diffs = compare_parser(FL)
+        if diffs and diffs != ['unmodelled']:
+            ctx.violation('filter layer: model and implementation disagree (%s); props/C11.v no longer tied to the code' % '; '.join(diffs)[:200],
+                          dict(payload, layer='filter', differences=diffs), no_input=True)
+        else:
+            ctx.counts['filter_layer_agree'] += 1
+
+
+# ------------------------------------------------------------------ exporter (C12)
+def parse_exported(text):
+    return corpus.parse_orthoxml(text)
+
+
+def canon_items(items):
+    """order-free form of exported group items"""
+    out = []
+    for it in items:
+        if it[0] == 'g':
+            out.append(('g', it[1]))
+        elif it[0] == 'og':
+            out.append(('og', it[1], canon_items(it[3])))
+        elif it[0] == 'pg':
+            out.append(('pg', canon_items(it[2])))
+        elif it[0] == 'prop':
+            out.append(('prop', it[1], it[2]))
+    return tuple(sorted(out, key=repr))
+
+
+def sx_items(xs):
+    out = []
+    for x in xs:
+        k = str(x[0])
+        if k == 'g':
+            out.append(('g', str(x[1]), None))
+        elif k == 'og':
+            out.append(('og', str(x[1][0]) if x[1] else None, str(x[2][0]) if x[2] else None, sx_items(x[3:])))
+        elif k == 'pg':
+            out.append(('pg', str(x[1][0]) if x[1] else None, sx_items(x[2:])))
+        else:
+            out.append((k, str(x[1]), str(x[2])))
+    return out
+
+
+def check_C12(ctx):
+    Ls = loaded_stream(ctx, ctx.scale(250, 3000))
+    plan = {}
+    def cmds(L):
+        if L.impl[0] != 'ok' or not L.case.consistent:
+            return []
+        d = L.dump
+        hs = [o for o, h in sorted(d.obj.items()) if len(h.children) >= 2]
+        if len(hs) > 10:
+            tops = [d.oid_of(h) for _, h in d.tops if len(h.children) >= 2]
+            hs = tops + ctx.rng.sample([o for o in hs if o not in tops], max(0, 10 - len(tops)))
+        plan[id(L)] = hs
+        prot = [[Q(g.unique_id), Q(str(g.prot_id))] for g in L.ham.extant_gene_map.values()]
+        return [['wf']] + [['export', o, prot] for o in hs]
+    reps = analyze(Ls, cmds)
+    for L, rep in zip(Ls, reps):
+        if rep is None:
+            continue
+        d, ham = L.dump, L.ham
+        nwk = ham.taxonomy.tree_str
+        for o, mrep in zip(plan[id(L)], rep[1:]):
+            h = d.obj[o]
+            ctx.counts['exports'] += 1
+            payload = {'case': case_json(L.case), 'hog': repr(h), 'hog_taxon': d.path[h.genome.taxon],
+                       'hog_genes': sorted(g.unique_id for g in h.get_all_descendant_genes())}
+            bad = []
+            sole_dup = len(h.duplications) == 1 and all(c.arose_by_duplication is not False for c in h.children)
+            try:
+                text = pyham.iham.OrthoXML_manager(h).get_orthoxml_str()
+                species, groups = parse_exported(text)
+            except Exception as e:  # noqa
+                ctx.violation('export fails: %s' % type(e).__name__, payload)
+                continue
+            members = sorted(g.unique_id for g in h.get_all_descendant_genes())
+            declared = sorted(g['id'] for _, gs in species for g in gs)
+            refs = sorted(x for it in groups for x in group_refs(it))
+            if declared != members:
+                bad.append('exported gene declarations are not the HOG\'s member genes')
+            if refs != members:
+                bad.append('exported groups do not reference each member gene exactly once')
+            for sp, gs in species:
+                for g in gs:
+                    if ham.extant_gene_map[g['id']].genome.name != sp:
+                        bad.append('gene %s declared under another species' % g['id'])
+            # reload with the same species tree
+            if not bad:
+                try:
+                    h2 = pyham.Ham(nwk, text, use_internal_name=True, orthoXML_as_string=True)
+                    d2 = impl.Dump(h2)
+                    got = sorted(impl.canon_hog(x) for x in d2.top_sx)
+                    want = [impl.canon_hog(forest_index(d)[('h', o)][0])]
+                    if got != want:
+                        bad.append('re-loading the export gives another hierarchy (members, taxa or duplications differ)')
+                except Exception as e:  # noqa
+                    bad.append('re-loading the export fails: %s' % type(e).__name__)
+            # the page
+            try:
+                vis = ham.create_iHam(h)
+                html = vis.HTML
+                if text not in html:
+                    bad.append('iHam page does not embed the exported orthoXML')
+                if ham.taxonomy.get_newick_from_tree(h.genome.taxon) not in html:
+                    bad.append('iHam page does not embed the species subtree')
+                fam = json.loads(vis.famdata)
+                if sorted(str(r['id']) for r in fam) != members:
+                    bad.append('iHam page does not have one record per member gene')
+            except Exception as e:  # noqa
+                bad.append('building the iHam page fails: %s' % type(e).__name__)
+            if bad:
+                key = None
+                if 're-loading' in bad[0]:
+                    key = 'F5-export-elision'
+                ctx.violation(bad[0], dict(payload, failures=bad[:10], exported=text[:3000]), finding_key=key)
+                continue
+            # correspondence
+            try:
+                m_species = sorted((str(sp[0]), tuple(sorted(str(g[1]) for g in sp[1:]))) for sp in mrep[1][1:])
+                m_groups = canon_items(sx_items(mrep[2][1:]))
+                i_species = sorted((sp, tuple(sorted(g['id'] for g in gs))) for sp, gs in species)
+                if m_species != i_species or m_groups != canon_items(groups):
+                    ctx.violation('exporter layer: model and implementation disagree; props/C12.v no longer tied to the code',
+                                  dict(payload, layer='exporter', exported=text[:3000], model=repr(m_groups)[:2000]), no_input=True)
+                else:
+                    ctx.counts['exporter_layer_agree'] += 1
+            except Exception as e:  # noqa
+                ctx.violation('exporter layer: model output unreadable (%s)' % type(e).__name__, dict(payload, layer='exporter'), no_input=True)
+
+
+# ------------------------------------------------------------------ configurations (C13)
+def phyloxml_text(t, with_clade_name=True):
+    def esc(x):
+        return x.replace('&', '&amp;').replace('<', '&lt;')
+    def go(n, ind):
+        pad = ' ' * ind
+        s_ = pad + '<clade>\n'
+        if with_clade_name:
+            s_ += pad + ' <name>%s</name>\n' % esc(n.name)
+        s_ += pad + ' <taxonomy><code>%s</code><scientific_name>%s</scientific_name></taxonomy>\n' % (esc(n.name), esc(n.name))
+        for c in n.kids:
+            s_ += go(c, ind + 1)
+        return s_ + pad + '</clade>\n'
+    return ('<phyloxml xmlns:xsi="http://www.w3.org/2001/XMLSchema-instance" xmlns="http://www.phyloxml.org" '
+            'xsi:schemaLocation="http://www.phyloxml.org http://www.phyloxml.org/1.20/phyloxml.xsd">\n'
+            '<phylogeny rooted="true" rerootable="false">\n<name>t</name>\n' + go(t, 0) + '</phylogeny>\n</phyloxml>\n')
+
+
+def check_C13(ctx):
+    import gzip
+    cases = [c for c in gen_main(ctx, ctx.scale(60, 500), p_og_attr=0.3) if c.consistent]
+    work = tempfile.mkdtemp(prefix='c13_', dir=os.path.join(core.VERIF, '.work') if os.path.isdir(os.path.join(core.VERIF, '.work')) else None)
+    try:
+        for c in cases:
+            ctx.record_case(c)
+            r0 = impl.load_impl(c)
+            if r0[0] != 'ok':
+                ctx.violation('consistent input rejected: %s' % r0[1], {'case': case_json(c)})
+                continue
+            base = signature(r0[1], rng=ctx.rng.__class__(1))
+            named_ok = all(n.name for n in c.tree.nodes())
+            nwf = os.path.join(work, 't.nwk')
+            with open(nwf, 'w') as f:
+                f.write(c.newick())
+            pxf = os.path.join(work, 't.phyloxml')
+            with open(pxf, 'w') as f:
+                f.write(phyloxml_text(c.tree))
+            xf = os.path.join(work, 'd.orthoxml')
+            with open(xf, 'w') as f:
+                f.write(c.xml())
+            xf1 = os.path.join(work, 'd1.orthoxml')
+            with open(xf1, 'w') as f:
+                f.write(c.xml(one_line=True))
+            xgz = os.path.join(work, 'd.orthoxml.gz')
+            with gzip.open(xgz, 'wt') as f:
+                f.write(c.xml())
+            no_ids = not any(g[1] is not None for g in c.groups)
+            configs = []
+            trees = [('newick_string', c.newick(), {}), ('newick', nwf, {})]
+            for tag in ('clade_name', 'taxonomy_scientific_name', 'taxonomy_code'):
+                trees.append(('phyloxml', pxf, {'phyloxml_leaf_name_tag': tag, 'phyloxml_internal_name_tag': tag}))
+            xmls = [('string', c.xml(), True), ('string-one-chunk', c.xml(one_line=True), True), ('file', xf, False),
+                    ('file-one-line', xf1, False), ('gzip', xgz, False)]
+            for tf, tv, tk in trees:
+                for ui in (True, False):
+                    for xn, xv, as_str in xmls:
+                        for prog in (False, True):
+                            configs.append((tf, tv, tk, ui, xn, xv, as_str, prog))
+            if ctx.tier != 'thorough':
+                configs = ctx.rng.sample(configs, 14)
+            for tf, tv, tk, ui, xn, xv, as_str, prog in configs:
+                ctx.counts['configurations'] += 1
+                ctx.dist['tree=%s' % tf] += 1
+                ctx.dist['xml=%s' % xn] += 1
+                desc = {'tree_format': tf, 'tags': tk, 'use_internal_name': ui, 'orthoxml': xn, 'progress': prog}
+                try:
+                    with open(os.devnull, 'w') as dn, __import__('contextlib').redirect_stderr(dn):
+                        h = pyham.Ham(tv, xv, use_internal_name=ui, orthoXML_as_string=as_str, tree_format=tf,
+                                      with_parser_progress=prog, **tk)
+                except Exception as e:  # noqa
+                    key = 'F7-progress-without-group-id' if (prog and isinstance(e, AttributeError)) else None
+                    ctx.violation('configuration fails to load (%s): %s' % (type(e).__name__, desc),
+                                  {'case': case_json(c), 'configuration': desc, 'error': repr(e)[:200]}, finding_key=key)
+                    continue
+                sg = signature(h, rng=ctx.rng.__class__(1))
+                df = sig_diff(base, sg)
+                if df:
+                    ctx.violation('configuration %s gives other %s than the baseline' % (desc, df),
+                                  {'case': case_json(c), 'configuration': desc, 'differs': df})
+                else:
+                    ctx.counts['configurations_agree'] += 1
+        # one model evaluation per case: the baseline must agree with the model
+        for L in core.load_cases(cases):
+            diffs = compare_parser(L)
+            if diffs and diffs != ['unmodelled']:
+                report_parser_layer(ctx, L, diffs, 'props/C13.v: c13_names_irrelevant')
+            else:
+                ctx.counts['parser_layer_agree'] += 1
+    finally:
+        import shutil
+        shutil.rmtree(work, ignore_errors=True)
+
+
+# ------------------------------------------------------------------ rewritings (C14)
+def relabel(items, f):
+    out = []
+    for it in items:
+        if it[0] == 'og':
+            out.append(('og', f(it[1]) if it[1] is not None else None, f(it[2]) if it[2] is not None else None, relabel(it[3], f)))
+        elif it[0] == 'pg':
+            out.append(('pg', it[1], relabel(it[2], f)))
+        else:
+            out.append(it)
+    return out
+
+
+def toggle_labels(items, rng, level_name):
+    """remove TaxRange labels on internal levels at random"""
+    out = []
+    for it in items:
+        if it[0] == 'og':
+            body = toggle_labels(it[3], rng, level_name)
+            wrapper = it[1] is None and it[2] is None and any(x[0] == 'prop' and x[1] == 'TaxRange' for x in body) \
+                and sum(1 for x in body if x[0] in ('g', 'og', 'pg')) == 1
+            if not wrapper and rng.random() < 0.5:
+                body = [x for x in body if not (x[0] == 'prop' and x[1] == 'TaxRange')]
+            out.append(('og', it[1], it[2], body))
+        elif it[0] == 'pg':
+            out.append(('pg', it[1], toggle_labels(it[2], rng, level_name)))
+        else:
+            out.append(it)
+    return out
+
+
+def check_C14(ctx):
+    import subprocess
+    nplans = ctx.scale(100, 1000)
+    plans = []
+    for _ in range(nplans):
+        pl = gen.gen_plan(ctx.rng, max_leaves=ctx.rng.choice([4, 8, 10]))
+        if pl.hists:
+            plans.append(pl)
+    hs_cases = []
+    for pl in plans:
+        gids = ['fam%d' % k for k in range(len(pl.hists))]
+        variants = []
+        for v in range(ctx.scale(5, 10)):
+            c = gen.spell_plan(ctx.rng, pl, explicit=(v == 0), group_ids=gids, tag='rewrite', p_annot=0.0)
+            if v >= 2 and ctx.rng.random() < 0.5:
+                c = gen.Case(c.tree, c.species, relabel(c.groups, lambda s_: 'r' + s_), c.use_internal,
+                             [('r' + i, h) for i, h in c.histories], c.singles, 'rewrite:relabel', c.stats)
+            if v >= 2 and ctx.rng.random() < 0.5:
+                c = gen.Case(c.tree, c.species, toggle_labels(c.groups, ctx.rng, None), c.use_internal,
+                             c.histories, c.singles, c.tag + ':labels', c.stats)
+            variants.append(c)
+        Ls = core.load_cases(variants)
+        sigs = []
+        for L in Ls:
+            ctx.record_case(L.case)
+            if L.impl[0] != 'ok':
+                ctx.violation('a spelling of a consistent input is rejected: %s' % L.impl[1], {'case': case_json(L.case)})
+                sigs.append(None)
+                continue
+            sg = signature(L.ham, with_profile=False, rng=ctx.rng.__class__(1))
+            sigs.append(sg)
+            diffs = compare_parser(L)
+            if diffs and diffs != ['unmodelled']:
+                report_parser_layer(ctx, L, diffs, 'props/C14.v: c14_spelling_independent')
+        ref = next((s_ for s_ in sigs if s_ is not None), None)
+        for L, sg in zip(Ls, sigs):
+            if sg is None or ref is None:
+                continue
+            ctx.counts['rewritings'] += 1
+            df = sig_diff(ref, sg)
+            if df:
+                ctx.violation('two spellings of one history load differently (%s)' % df,
+                              {'case': case_json(L.case), 'other': case_json(Ls[0].case), 'differs': df})
+            else:
+                ctx.counts['rewritings_agree'] += 1
+        if len(hs_cases) < ctx.scale(40, 300):
+            hs_cases.append(variants[-1])
+    # hash seed / set iteration order: the same inputs under other PYTHONHASHSEED values
+    work = os.path.join(core.VERIF, '.work')
+    os.makedirs(work, exist_ok=True)
+    fn = os.path.join(work, 'hs_%d.json' % os.getpid())
+    with open(fn, 'w') as f:
+        json.dump([case_json(c) for c in hs_cases], f)
+    outs = {}
+    for seed in (['1', '2', '3'] if ctx.tier == 'thorough' else ['1', '7']):
+        env = dict(os.environ, PYTHONHASHSEED=seed, PYTHONPATH=impl.REPO)
+        p = subprocess.run([os.sys.executable, os.path.join(os.path.dirname(os.path.abspath(__file__)), 'hashseed_worker.py'), fn],
+                           env=env, stdout=subprocess.PIPE, stderr=subprocess.PIPE)
+        outs[seed] = p.stdout.decode().split('\n')
+    os.remove(fn)
+    mine = []
+    for c in hs_cases:
+        r = impl.load_impl(c)
+        mine.append(repr(sorted(signature(r[1], rng=__import__('random').Random(1)).items())) if r[0] == 'ok' else 'err')
+    import hashlib
+    for k, c in enumerate(hs_cases):
+        dg = hashlib.md5(mine[k].encode()).hexdigest()
+        for seed, lines in outs.items():
+            ctx.counts['hash_seed_runs'] += 1
+            if k >= len(lines) or lines[k].strip() != dg:
+                ctx.violation('results depend on the hash seed (PYTHONHASHSEED=%s)' % seed, {'case': case_json(c), 'seed': seed})
+
+
+# ------------------------------------------------------------------ call histories (C17)
+class Session(object):
+    """one loaded analysis with id-free naming of its objects"""
+
+    def __init__(self, case):
+        r = impl.load_impl(case)
+        assert r[0] == 'ok', r
+        self.ham = r[1]
+        self.refresh()
+
+    def refresh(self):
+        self.d = impl.Dump(self.ham)
+        self.keys = obj_keys(self.d)
+        self.by_key = {}
+        for rf, k in self.keys.items():
+            self.by_key[k] = self.ham.extant_gene_map[rf[1]] if rf[0] == 'g' else self.d.obj[rf[1]]
+
+    def K(self, x):
+        return self.keys.get(self.d.ref(x), ('unknown', repr(x)))
+
+    def genome(self, p):
+        return self.d.genome_at[p]
+
+    def core(self):
+        d = impl.Dump(self.ham)
+        keys = obj_keys(d)
+        return {'forest': sorted(impl.canon_hog(h, True) for h in d.top_sx),
+                'singles': sorted(str(x[1]) for x in d.single_sx),
+                'anomalies': list(d.anomalies),
+                'genomes': sorted((p, sorted(keys.get(d.ref(x), ('?', repr(x))) for x in g.genes))
+                                  for p, g in d.genome_at.items() if g.genes),
+                'genes': sorted(self.ham.extant_gene_map.keys()),
+                'tops': sorted(self.ham.top_level_hogs.keys())}
+
+    def empty_genomes(self):
+        d = impl.Dump(self.ham)
+        return {p: type(g).__name__ for p, g in d.genome_at.items() if not g.genes}
+
+
+def run_op(S, op):
+    """execute one public analysis call; the result in id-free form"""
+    ham, K = S.ham, S.K
+    k = op[0]
+    try:
+        if k == 'vertical':
+            m = ham.compare_genomes_vertically(S.genome(op[1]), S.genome(op[2]))
+            return ('ok', S.d.path[m.ancestor.taxon], sorted(K(x) for x in m.get_gained()),
+                    sorted((K(a), K(b)) for a, b in m.get_retained().items()),
+                    sorted((K(a), tuple(sorted(K(b) for b in bs))) for a, bs in m.get_duplicated().items()),
+                    sorted(K(x) for x in m.get_lost()), m.get_number_duplications())
+        if k == 'lateral':
+            m = ham.compare_genomes_lateral(S.genome(op[1]), S.genome(op[2]))
+            P_ = lambda g: S.d.path[g.taxon] if g.taxon in S.d.path else impl.node_path(g.taxon)
+            return ('ok', P_(m.ancestor),
+                    sorted((K(a), tuple(sorted(P_(g) for g in gs))) for a, gs in m.get_lost().items()),
+                    sorted((P_(g), tuple(sorted(K(x) for x in xs))) for g, xs in m.get_gained().items()),
+                    sorted((K(a), tuple(sorted((P_(g), K(x)) for g, x in v.items()))) for a, v in m.get_retained().items()),
+                    sorted((K(a), tuple(sorted((P_(g), tuple(sorted(K(x) for x in xs))) for g, xs in v.items())))
+                           for a, v in m.get_duplicated().items()))
+        if k == 'profile_full':
+            tab = treemap_table(ham.create_tree_profile().treemap)
+            return ('ok', sorted((p, nbr, tuple(sorted(f.items(), key=str))) for p, (nbr, f, _) in tab.items()))
+        if k == 'profile_hog':
+            h = S.by_key[op[1]]
+            tm = ham.create_tree_profile(hog=h).treemap
+            return ('ok', sorted((impl.node_path(n), n.nbr_genes, n.dupl, n.lost, n.retained, n.duplication) for n in tm.traverse()))
+        if k == 'iham':
+            h = S.by_key[op[1]]
+            vis = ham.create_iHam(h)
+            sp, gr = corpus.parse_orthoxml(vis.orthoxml.get_orthoxml_str())
+            return ('ok', canon_items(relabel(gr, lambda s_: 'id')), sorted((n, tuple(sorted(g['id'] for g in gs))) for n, gs in sp),
+                    vis.newick_str, sorted(str(r_['id']) for r_ in json.loads(vis.famdata)))
+        if k == 'clustering':
+            ac = S.genome(op[1]).get_ancestral_clustering()
+            return ('ok', sorted((K(h), tuple(sorted(g.unique_id for g in gs))) for h, gs in ac.items()))
+        if k == 'nav':
+            h = S.by_key[op[1]]
+            return ('ok', sorted(g.unique_id for g in h.get_all_descendant_genes()),
+                    sorted(K(x) for x in h.get_all_descendant_hogs()), K(h.get_top_level_hog()),
+                    sorted((S.d.path[sp.taxon], tuple(sorted(g.unique_id for g in gs)))
+                           for sp, gs in h.get_all_descendant_genes_clustered_by_species().items()))
+        if k == 'at_level':
+            return ('ok', sorted(K(x) for x in S.by_key[op[1]].get_at_level(S.genome(op[2]))))
+        if k == 'listings':
+            return ('ok', sorted(K(x) for x in ham.get_list_top_level_hogs()), sorted(g.unique_id for g in ham.get_list_extant_genes()),
+                    sorted(impl.node_path(g.taxon) for g in ham.get_list_ancestral_genomes() if g.genes),
+                    sorted(impl.node_path(g.taxon) for g in ham.get_list_extant_genomes() if g.genes))
+        if k == 'extant_listing':
+            return ('ok', sorted(impl.node_path(g.taxon) for g in ham.get_list_extant_genomes()))
+        if k == 'lookups':
+            g = ham.get_gene_by_id(op[1])
+            return ('ok', g.unique_id, K(ham.get_hog_by_gene(g)), sorted(g.get_dict_xref().items()))
+        if k == 'number_genes':
+            return ('ok', S.genome(op[1]).get_number_genes())
+    except Exception as e:  # noqa
+        return ('err', type(e).__name__)
+    return ('err', 'bad-op')
+
+
+def gen_ops(ctx, S, n):
+    gs = sorted(p for p, g in S.d.genome_at.items() if g.genes)
+    ancs = [p for p in gs if p in S.d.internals]
+    hogs = sorted((k for k in S.by_key if k[0] == 'h'), key=repr)
+    members = sorted(S.by_key.keys(), key=repr)
+    genes = sorted(S.ham.extant_gene_map.keys())
+    ops = []
+    for _ in range(n):
+        r = ctx.rng.random()
+        if r < 0.2 and len(gs) >= 2:
+            a, b = ctx.rng.sample(gs, 2)
+            ops.append(('vertical', a, b))
+        elif r < 0.35 and len(gs) >= 2:
+            a, b = ctx.rng.sample(gs, 2)
+            ops.append(('lateral', a, b))
+        elif r < 0.45:
+            ops.append(('profile_full',))
+        elif r < 0.55 and hogs:
+            ops.append(('profile_hog', ctx.rng.choice(hogs)))
+        elif r < 0.63 and hogs:
+            ops.append(('iham', ctx.rng.choice(hogs)))
+        elif r < 0.7 and ancs:
+            ops.append(('clustering', ctx.rng.choice(ancs)))
+        elif r < 0.78 and hogs:
+            ops.append(('nav', ctx.rng.choice(hogs)))
+        elif r < 0.86 and members and gs:
+            ops.append(('at_level', ctx.rng.choice(members), ctx.rng.choice(gs)))
+        elif r < 0.9:
+            ops.append(('listings',))
+        elif r < 0.93:
+            ops.append(('extant_listing',))
+        elif r < 0.97 and genes:
+            ops.append(('lookups', ctx.rng.choice(genes)))
+        elif gs:
+            ops.append(('number_genes', ctx.rng.choice(gs)))
+    return ops
+
+
+def check_C17(ctx):
+    cases = [c for c in gen_main(ctx, ctx.scale(60, 500)) if c.consistent]
+    for c in cases:
+        ctx.record_case(c)
+        if impl.load_impl(c)[0] != 'ok':
+            continue
+        X, Y = Session(c), Session(c)
+        declared = set(n for n, _ in c.species)
+        undeclared = set(n.path for n in c.named_tree().leaves() if n.name not in declared)
+        before = X.core()
+        empty_before = X.empty_genomes()
+        ops = gen_ops(ctx, X, ctx.scale(25, 120))
+        for i, op in enumerate(ops):
+            ctx.counts['ops'] += 1
+            ctx.dist['op=' + op[0]] += 1
+            S = X if ctx.rng.random() < 0.7 else Y
+            got = run_op(S, op)
+            fresh = run_op(Session(c), op)
+            if got != fresh:
+                key = None
+                if op[0] == 'extant_listing' and got[0] == 'ok' and fresh[0] == 'ok' and set(fresh[1]) <= set(got[1]) \
+                        and all(p in undeclared for p in set(got[1]) - set(fresh[1])):
+                    key = 'F8-extant-genome-for-undeclared-species'
+                ctx.violation('%s returns another result after %d earlier calls than on a fresh analysis' % (op[0], i),
+                              {'case': case_json(c), 'ops': [list(map(str, o)) for o in ops[:i + 1]], 'op': list(map(str, op)),
+                               'after_history': repr(got)[:800], 'fresh': repr(fresh)[:800]}, finding_key=key)
+                break
+        after = X.core()
+        if after != before:
+            ctx.violation('analysis calls changed the loaded data (%s)' % sig_diff(before, after),
+                          {'case': case_json(c), 'ops': [list(map(str, o)) for o in ops], 'differs': sig_diff(before, after)})
+        else:
+            ctx.counts['core_unchanged'] += 1
+        new = {p: k for p, k in X.empty_genomes().items() if p not in empty_before}
+        for p, kind in new.items():
+            if kind != 'AncestralGenome':
+                ctx.violation('an empty %s appeared at %s after analysis calls' % (kind, list(p)),
+                              {'case': case_json(c), 'ops': [list(map(str, o)) for o in ops], 'node': p},
+                              finding_key='F8-extant-genome-for-undeclared-species' if p in undeclared else None)
+    for L in core.load_cases(cases):
+        diffs = compare_parser(L)
+        if diffs and diffs != ['unmodelled']:
+            report_parser_layer(ctx, L, diffs, 'props/C17.v: c17_history_independent')
+        else:
+            ctx.counts['parser_layer_agree'] += 1
+
+
 def replay(ctx, rp):
     """re-run the property's check on exactly the recorded case"""
     global FORCED
